@@ -182,6 +182,11 @@ Theorem C02_rule_iff_fragments_on_composite_types : forall S W,
 Proof. exact fragments_on_composite_iff. Qed.
 Print Assumptions C02_rule_iff_fragments_on_composite_types.
 
+Theorem C02_rule_iff_known_type_names : forall S W,
+  rule_known_type_names S W <> [] <-> Violates_known_type_names S W.
+Proof. exact known_type_names_iff. Qed.
+Print Assumptions C02_rule_iff_known_type_names.
+
 (* ---- non-vacuity ---- *)
 Definition exS : schema :=
   {| s_types := [("String", TScalar SString);
